@@ -1,5 +1,6 @@
 mod broker;
 mod check;
+mod clientsim;
 mod codecfuzz;
 mod expect;
 mod fuzz;
@@ -35,6 +36,8 @@ fn main() {
                 "C01" | "C04" | "C05" | "C06" | "C07" | "C08" | "C09" | "C10" | "C11" | "C14" | "C15" | "C17" | "C18" => check::run_engine_check(&id, &tier, seed, budget),
                 "C02" => codecfuzz::run_c02(&tier, seed),
                 "C16" => valfuzz::run_c16(&tier, seed),
+                "C12" => clientsim::run_c12(&tier, seed),
+                "C19" => clientsim::run_c19(&tier, seed),
                 "C03" => codecfuzz::run_c03(&tier, seed),
                 _ => { println!("INCONCLUSIVE property={} reason=unknown-check", id); 3 }
             }
